@@ -17,9 +17,10 @@ rt.fast_concrete_schema_handling()
 
 SCHEMAS = ["pair_field_record", "pair_field_enum", "pair_field_fixed", "pair_array_record", "pair_map_record", "pair_union_record",
            "ref_after_def", "ns_inherit", "ns_dotted", "ns_switch", "chain_rec_union_rec_arr", "chain_map_arr_rec",
-           "union_named_mix", "union_two_recs", "rec_mutual", "rec_defaults2", "union_in_array_named"]
+           "union_named_mix", "union_two_recs", "rec_mutual", "rec_defaults2", "union_in_array_named", "map_named_twice",
+           "map_defines_named", "rec_enum_default"]
 QUICK = ["pair_field_record", "pair_array_record", "pair_union_record", "ref_after_def", "ns_inherit", "ns_switch",
-         "union_named_mix", "pair_field_enum", "rec_defaults2", "chain_rec_union_rec_arr"]
+         "union_named_mix", "pair_field_enum", "rec_defaults2", "chain_rec_union_rec_arr", "map_named_twice", "map_defines_named"]
 
 
 def nested_defs(schema):
@@ -96,6 +97,29 @@ def piecewise(schema, mask):
     return parsed_top, named, len(defs)
 
 
+def evolved(schema):
+    """a reader's version of the schema: every record definition gains a defaulted field, every enum a trailing
+    symbol and a default; a schema with no such definition is returned unchanged (reader == writer)"""
+    def walk(s):
+        if isinstance(s, list):
+            return [walk(b) for b in s]
+        if isinstance(s, dict):
+            t = s.get("type")
+            d = dict(s)
+            if t in ("record", "error"):
+                d["fields"] = [dict(f, type=walk(f["type"])) for f in s.get("fields", [])] + [
+                    {"name": "added_by_reader", "type": "int", "default": 42}]
+            elif t == "enum":
+                d["symbols"] = list(s["symbols"]) + ["ZZ_READER_ONLY"]
+            elif t == "array":
+                d["items"] = walk(s["items"])
+            elif t == "map":
+                d["values"] = walk(s["values"])
+            return d
+        return s
+    return walk(copy.deepcopy(schema))
+
+
 _C = {}
 
 
@@ -112,6 +136,17 @@ def case(name, thorough=False):
         except Exception as e:
             forms[mask] = None  # not a valid split (a piece needs a type defined later)
     c["forms"] = forms
+    # the same three forms of an evolved reader schema (C12 x resolution: a piecewise-parsed reader schema mentions
+    # named types by name where the writer's schema defines them inline)
+    c["reader"] = evolved(c["schema"])
+    rforms = {}
+    for mask in range(1 << c["ndefs"]):
+        try:
+            rforms[mask] = piecewise(c["reader"], mask)[0]
+        except Exception:
+            rforms[mask] = None
+    c["rforms"] = rforms
+    c["reader_parsed"] = S.parse_schema(copy.deepcopy(c["reader"]))
     c["cfg"] = c["cfg"].but(K=1, ints="small", strs="pool", floats="pool", bytes="pool", npool=2)
     c["pcf"] = S.to_parsing_canonical_form(copy.deepcopy(c["schema"]))
     _C[key] = c
@@ -168,6 +203,40 @@ def ob_forms_agree(c, v, mask):
             return False, f"{label} form (mask {mask}) reads back {back!r}, raw form {outs[0][2]!r}"
         if val != outs[0][3]:
             return False, f"{label} form (mask {mask}) validates {d!r} as {val}, raw form as {outs[0][3]}"
+    return True, ""
+
+
+def ob_reader_forms(c, v, mask):
+    """reading with a reader schema gives the same value whether the reader schema is raw, parsed or piecewise"""
+    pw = None
+    for m, f in c["rforms"].items():
+        if mask == m:
+            pw = f
+    if pw is None:
+        return True, "out of domain"
+    try:
+        d = shape.build(c["ir"], c["names"], v, c["cfg"])
+    except OutOfDomain:
+        return True, "out of domain"
+    fo = rt.new_io()
+    try:
+        W.schemaless_writer(fo, c["parsed"], d)
+    except Exception as e:
+        return False, f"writer raised {type(e).__name__}: {e} for {d!r}"
+    outs = []
+    for label, rs in (("raw", c["reader"]), ("parsed", c["reader_parsed"]), ("piecewise", pw)):
+        rt.rewind(fo)
+        try:
+            back = R.schemaless_reader(fo, c["schema"], rs)
+        except Exception as e:
+            back = ("raised", type(e).__name__)
+        outs.append((label, back))
+    for label, back in outs[1:]:
+        if not _same(back, outs[0][1]):
+            return False, (f"reader schema in {label} form (mask {mask}) reads {back!r}, in raw form {outs[0][1]!r} "
+                           f"(datum {d!r} written under the unevolved schema)")
+    if isinstance(outs[0][1], tuple) and outs[0][1][:1] == ("raised",):
+        return False, f"reading with the evolved reader schema raised {outs[0][1][1]} for {d!r}"
     return True, ""
 
 
@@ -232,6 +301,10 @@ def harnesses(tier, seed):
         hs.append(Harness(f"forms.{name}", "props.l12", f"v: {a}, mask: int", call + "[0]", replay_call=call, setup=setup,
                           what=f"raw/parsed/piecewise forms of {name}", samples=[(sv[0], 0), (sv[-1], full)],
                           key=_key("forms", name, c)))
+        call = "ob_reader_forms(C, v, mask)"
+        hs.append(Harness(f"reader_forms.{name}", "props.l12", f"v: {a}, mask: int", call + "[0]", replay_call=call, setup=setup,
+                          what=f"raw/parsed/piecewise forms of an evolved reader schema of {name}", samples=[(sv[0], 0), (sv[-1], full)],
+                          key=_key("reader_forms", name, c)))
         call = "ob_canonical(C, mask)"
         hs.append(Harness(f"canonical.{name}", "props.l12", "mask: int", call + "[0]", replay_call=call, setup=setup,
                           what=f"canonical form of the forms of {name}", samples=[(0,), (full,)],
